@@ -21,30 +21,39 @@ def lookup : Env → String → Option (Option (Ty × Nat))
   | [], _ => none
   | (n, info) :: rest, x => if nameEq n x then some info else lookup rest x
 
-def rankOk (env : Env) (x : String) (n : Nat) : Bool :=
-  match lookup env x with
+/-- a scope as a look-up function -/
+abbrev Lk := String → Option (Option (Ty × Nat))
+
+/-- inner names (ASSOCIATE) shadow the outer scope -/
+def extend (bs : Env) (lk : Lk) : Lk := fun x =>
+  match lookup bs x with
+  | some i => some i
+  | none => lk x
+
+def rankOk (env : Lk) (x : String) (n : Nat) : Bool :=
+  match env x with
   | some (some (_, r)) => r == n
   | some none => true
   | none => false
 
 mutual
-def wfEx (env : Env) : Ex → Bool
+def wfEx (env : Lk) : Ex → Bool
   | .lit _ => true
-  | .var x => (lookup env x).isSome
+  | .var x => (env x).isSome
   | .idx x es => rankOk env x (lenExs es) && wfExs env es
   | .sec x ds => rankOk env x (lenDims ds) && wfDims env ds
   | .neg a => wfEx env a
   | .not a => wfEx env a
   | .bin _ a b => wfEx env a && wfEx env b
   | .call _ es => wfExs env es
-def wfExs (env : Env) : List Ex → Bool
+def wfExs (env : Lk) : List Ex → Bool
   | [] => true
   | e :: es => wfEx env e && wfExs env es
-def wfDims (env : Env) : List Dim → Bool
+def wfDims (env : Lk) : List Dim → Bool
   | [] => true
   | .at e :: ds => wfEx env e && wfDims env ds
   | .rng lo hi st :: ds => wfOEx env lo && wfOEx env hi && wfOEx env st && wfDims env ds
-def wfOEx (env : Env) : Option Ex → Bool
+def wfOEx (env : Lk) : Option Ex → Bool
   | none => true
   | some e => wfEx env e
 def lenExs : List Ex → Nat
@@ -55,8 +64,8 @@ def lenDims : List Dim → Nat
   | _ :: ds => lenDims ds + 1
 end
 
-def isIntScalar (env : Env) (v : String) : Bool :=
-  match lookup env v with
+def isIntScalar (env : Lk) (v : String) : Bool :=
+  match env v with
   | some (some (.int, 0)) => true
   | _ => false
 
@@ -71,27 +80,27 @@ def bindEnv : List (String × Ex) → Env
   | [] => []
   | (x, _) :: bs => (x, none) :: bindEnv bs
 
-def wfBinds (env : Env) : List (String × Ex) → Bool
+def wfBinds (env : Lk) : List (String × Ex) → Bool
   | [] => true
   | (_, e) :: bs => wfEx env e && wfBinds env bs
 
 mutual
-def wfStmt (sigs : Sigs) (env : Env) : Stmt → Bool
+def wfStmt (sigs : Sigs) (env : Lk) : Stmt → Bool
   | .assign l r => wfEx env l && wfEx env r
   | .doLoop v lo hi st body => isIntScalar env v && wfEx env lo && wfEx env hi && wfOEx env st && wfStmts sigs env body
   | .while c body => wfEx env c && wfStmts sigs env body
   | .ifte c t e => wfEx env c && wfStmts sigs env t && wfStmts sigs env e
   | .select e cs d => wfEx env e && wfCases sigs env cs && wfStmts sigs env d
-  | .assoc bs body => wfBinds env bs && wfStmts sigs (bindEnv bs ++ env) body
+  | .assoc bs body => wfBinds env bs && wfStmts sigs (extend (bindEnv bs) env) body
   | .callSub f args => callOk sigs f (lenExs args) && wfExs env args
   | .print args => wfExs env args
   | .exit => true
   | .cycle => true
   | .nop _ _ => true
-def wfStmts (sigs : Sigs) (env : Env) : List Stmt → Bool
+def wfStmts (sigs : Sigs) (env : Lk) : List Stmt → Bool
   | [] => true
   | s :: ss => wfStmt sigs env s && wfStmts sigs env ss
-def wfCases (sigs : Sigs) (env : Env) : List (List Int × List Stmt) → Bool
+def wfCases (sigs : Sigs) (env : Lk) : List (List Int × List Stmt) → Bool
   | [] => true
   | (_, b) :: cs => wfStmts sigs env b && wfCases sigs env cs
 end
@@ -104,20 +113,20 @@ def declEnv : List Decl → Env
   | [] => []
   | d :: ds => (d.name, some (d.ty, lenBounds d.dims)) :: declEnv ds
 
-def wfBounds (env : Env) : List (Ex × Ex) → Bool
+def wfBounds (env : Lk) : List (Ex × Ex) → Bool
   | [] => true
   | (lo, hi) :: bs => wfEx env lo && wfEx env hi && wfBounds env bs
 
-def wfDecls (env : Env) : List Decl → Bool
+def wfDecls (env : Lk) : List Decl → Bool
   | [] => true
   | d :: ds => wfBounds env d.dims && wfOEx env d.param && wfDecls env ds
 
-def argsDeclared (env : Env) : List String → Bool
+def argsDeclared (env : Lk) : List String → Bool
   | [] => true
-  | a :: as => (lookup env a).isSome && argsDeclared env as
+  | a :: as => (env a).isSome && argsDeclared env as
 
 def wfUnit (sigs : Sigs) (u : Fir.Unit) : Bool :=
-  let env := declEnv u.decls
+  let env : Lk := lookup (declEnv u.decls)
   argsDeclared env u.args && wfDecls env u.decls && wfStmts sigs env u.body
 
 def lenStrs : List String → Nat
